@@ -143,6 +143,11 @@ pub const ROOTS: &[&str] = &[
     // crowded but legal
     "rnbqkbnr/pppppppp/8/8/8/8/PPPPPPPP/RNBQKBNR b KQkq - 0 1", "QQQQ1k2/8/8/8/8/8/8/K7 w - - 0 1",
     "6k1/5ppp/8/8/8/8/5PPP/3R2K1 w - - 0 1", "7k/5Q2/6K1/8/8/8/8/8 b - - 0 1", "7k/8/5KQ1/8/8/8/8/8 w - - 0 1",
+    // double checks: mate delivered by a double check (and the position one move before), both colours; a double check that is not mate
+    "3qkb2/5p2/5N2/8/8/8/8/4R1K1 b - - 0 1", "3qkb2/5p2/8/8/4N3/8/8/4R1K1 w - - 0 1",
+    "4r1k1/8/8/8/8/5n2/5P2/3QKB2 w - - 0 1", "4r1k1/8/8/8/4n3/8/5P2/3QKB2 b - - 0 1",
+    "rnbk1b1r/pp3ppp/2p5/4q1B1/4n3/8/PPP2PPP/2KR1BNR b - - 0 1", "rnb1kb1r/pp3ppp/2p5/4q3/4n3/3Q4/PPPB1PPP/2KR1BNR w kq - 0 1",
+    "k7/n7/2B5/8/8/8/8/RR5K b - - 0 1", "rr5k/8/8/8/8/2b5/N7/K7 w - - 0 1", "rr5k/8/8/8/8/8/N7/K3b3 b - - 0 1",
 ];
 
 pub fn roots() -> Vec<Board> { ROOTS.iter().filter_map(|f| Board::from_str(f).ok()).collect() }
